@@ -82,6 +82,19 @@ def observe(v):
     return slots, s, h
 
 
+def describe_change(first, now):
+    if first[0] != now[0]:
+        a, b = dict(x for x in first[0][1:] if isinstance(x, tuple) and len(x) == 2), \
+            dict(x for x in now[0][1:] if isinstance(x, tuple) and len(x) == 2)
+        diff = ["%s: %r -> %r" % (k, a.get(k), b.get(k)) for k in a
+                if a.get(k) != b.get(k)]
+        return "state of %s %s changed (%s)" % (first[0][0], first[1],
+                                                "; ".join(diff)[:300])
+    if first[1] != now[1]:
+        return "string form changed %r -> %r" % (first[1], now[1])
+    return "hash changed %r -> %r" % (first[2], now[2])
+
+
 class Interp:
     """Executes steps over the pools and checks the immutability invariant."""
 
@@ -116,8 +129,8 @@ class Interp:
         again = observe(v)
         self.values.append((v, first, step_no))
         if again != first:
-            return ("observing a new value changes it: %s -> %s" % (
-                first[1], again[1]))
+            return ("observing a new value (str / hash) changes it: %s" %
+                    describe_change(first, again))
         return None
 
     def pick(self, pool, i):
@@ -133,13 +146,9 @@ class Interp:
         for v, first, origin in self.values:
             now = observe(v)
             if now != first:
-                what = ("state" if now[0] != first[0] else
-                        "string form" if now[1] != first[1] else "hash")
-                return ("mutated: step #%d %r changed the %s of a %s created "
-                        "at step #%d: %r -> %r" % (
-                            step_no, step, what, type(v).__name__, origin,
-                            first[1] if what != "hash" else first[2],
-                            now[1] if what != "hash" else now[2]))
+                return ("mutated: step #%d %r changed a value created at step "
+                        "#%d: %s" % (step_no, step, origin,
+                                     describe_change(first, now)))
         return None
 
     def do(self, step, step_no):
